@@ -30,8 +30,13 @@ OPS = ('shape', 'labels', 'values', 'to_frame', 'head_tail', 'iloc', 'iloc', 'il
 
 @st.composite
 def quilt_cases(draw):
-    k = draw(st.integers(1, 5))
+    # decisive choices first (late draws are pinned to their first option for a share of Hypothesis's examples)
+    op = draw(st.sampled_from(OPS))
     axis = draw(st.integers(0, 1))
+    retain = draw(st.booleans())
+    ascending_only = draw(st.integers(0, 3)) > 0
+    backed = draw(st.booleans())
+    k = draw(st.sampled_from([3, 2, 1, 4, 5]))
     w = draw(st.integers(1, 4))       # size of the aligned (opposite) axis
     kinds = [draw(st.sampled_from(['int64', 'float64', '<U3', 'bool'])) for _ in range(w)]
     members = []
@@ -40,10 +45,8 @@ def quilt_cases(draw):
         cols = [draw(gen.column(kd, ln, missing=False)) for kd in kinds]
         members.append({'len': ln, 'cols': cols})
     total = sum(m['len'] for m in members)
-    retain = draw(st.booleans())
-    op = draw(st.sampled_from(OPS))
     case = {'members': members, 'axis': axis, 'retain': retain, 'kinds': kinds, 'op': op, 'max_persist': draw(st.one_of(st.none(), st.integers(1, k))),
-            'backed': draw(st.booleans()), 'ascending_only': draw(st.integers(0, 3)) > 0}
+            'backed': backed, 'ascending_only': ascending_only}
     if op in ('iloc', 'loc', 'getitem'):
         if case['ascending_only']:
             case['k0'] = draw(asc_key(total))
@@ -265,14 +268,15 @@ BATCH_OPS = ('iloc', 'loc_col', 'neg', 'mul', 'sum', 'mean', 'min', 'max', 'appl
 
 @st.composite
 def batch_cases(draw):
-    k = draw(st.integers(1, 4))
+    chain = draw(st.lists(st.sampled_from(BATCH_OPS), min_size=1, max_size=3))  # decisive choices first
+    export = draw(st.sampled_from(['items', 'to_frame', 'to_bus']))
+    k = draw(st.sampled_from([2, 3, 1, 4]))
     frames = []
     for q in range(k):
         n = draw(st.integers(1, 4))
         cols = [draw(gen.column(draw(st.sampled_from(['int64', 'float64'])), n, missing=True)) for _ in range(2)]
         frames.append({'cols': cols, 'index': draw(gen.flat_labels(n, 'int'))})
-    chain = draw(st.lists(st.sampled_from(BATCH_OPS), min_size=1, max_size=3))
-    return {'frames': frames, 'chain': chain, 'export': draw(st.sampled_from(['items', 'to_frame', 'to_bus']))}
+    return {'frames': frames, 'chain': chain, 'export': export}
 
 
 def _apply_chain(x, chain, rep=None):
